@@ -9,9 +9,11 @@ import (
 	"math/rand"
 	"os"
 	"path/filepath"
+	"regexp"
 	"runtime/debug"
 	"runtime/pprof"
 	"sort"
+	"strconv"
 	"strings"
 	"sync"
 	"sync/atomic"
@@ -764,6 +766,8 @@ func (s *c07State) scan(enc string, k c07Case) {
 	}
 }
 
+var c07ValidContig = regexp.MustCompile(`(?m)^CONTIG +join\([^:()\n]+:[0-9]+\.\.[0-9]+\)`)
+
 // judgeRecord is the consistency clause for one yielded GenBank record.
 func (s *c07State) judgeRecord(enc string, k c07Case, i int, y c07Yield, text []byte) {
 	c := s.c
@@ -782,6 +786,15 @@ func (s *c07State) judgeRecord(enc string, k c07Case, i int, y c07Yield, text []
 	switch {
 	case len(rec.Blocks) == 0:
 		c.Bucket("consistency|no-origin-block")
+		// a record that declares residues, has neither an ORIGIN block nor a
+		// well-formed CONTIG reference, and is read as an empty sequence is
+		// the "read as an empty sequence" the statement rules out.
+		if rec.LocusOK && rec.Declared > 0 && y.n == 0 && rec.Unclear == "" && !c07ValidContig.Match(text) {
+			c.Bucket("consistency|empty-without-origin-or-contig")
+			c.Violate("inconsistent-record-accepted:empty-without-origin-or-contig", enc,
+				fmt.Sprintf("an error: LOCUS declares %d residues, the record has no ORIGIN block and no well-formed CONTIG line", rec.Declared),
+				"record yielded with Len()=0")
+		}
 		return
 	case !rec.LocusOK:
 		c.Bucket("consistency|unclear-structure")
@@ -1243,6 +1256,7 @@ func (m c07) Run(c *fw.Ctx) {
 
 	s.systematic()
 	s.seeded()
+	s.scaling()
 
 	keys := make([]string, 0, len(s.slow))
 	for k := range s.slow {
@@ -1251,6 +1265,141 @@ func (m c07) Run(c *fw.Ctx) {
 	sort.Strings(keys)
 	for _, k := range keys {
 		c.Note(fmt.Sprintf("slowest %s case of shard %d: %.2f CPU-s: %s (evidence only; budget %.0f CPU-s)", k, c.Shard, s.slow[k].cpu, s.slow[k].what, c07BudgetCPU))
+	}
+}
+
+// scaling is the bounded-progress form of "time proportional to the input"
+// for constructs whose size can grow inside one record: the same construct is
+// scanned at size n and 4n (both <= 64 KiB); a CPU time that grows more than
+// 12-fold while the larger run needs more than 0.25 CPU-seconds is reported.
+// (Quadratic behaviour that already exists on the unchanged tree - joins of
+// thousands of parts - is reported as evidence by the slow-case notes, and is
+// not part of these probes.)
+func (s *c07State) scaling() {
+	c := s.c
+	head := "LOCUS       SCL %d bp DNA linear SYN 01-JAN-2020\nDEFINITION  scaling.\n"
+	type probe struct {
+		name  string
+		build func(n int) string
+		n     int
+		entry string // "" = scan as sequence input, else a string entry point
+	}
+	parts := func(open, sep, close string, n int) string {
+		var b strings.Builder
+		b.WriteString(open)
+		for i := 0; i < n; i++ {
+			if i > 0 {
+				b.WriteString(sep)
+			}
+			fmt.Fprintf(&b, "%d..%d", 10*i+1, 10*i+5)
+		}
+		b.WriteString(close)
+		return b.String()
+	}
+	probes := []probe{
+		{"comment continuation lines", func(n int) string {
+			return fmt.Sprintf(head, 4) + "COMMENT     first\n" + strings.Repeat("            more text\n", n) + "ORIGIN      \n        1 acgt\n//\n"
+		}, 700, ""},
+		{"definition continuation lines", func(n int) string {
+			return fmt.Sprintf("LOCUS       SCL 4 bp DNA linear SYN 01-JAN-2020\nDEFINITION  scaling\n") + strings.Repeat("            more text\n", n) + "            end.\nORIGIN      \n        1 acgt\n//\n"
+		}, 700, ""},
+		{"features", func(n int) string {
+			var b strings.Builder
+			b.WriteString(fmt.Sprintf(head, 4) + "FEATURES             Location/Qualifiers\n")
+			for i := 0; i < n; i++ {
+				b.WriteString("     gene            1..4\n                     /note=\"x\"\n")
+			}
+			b.WriteString("ORIGIN      \n        1 acgt\n//\n")
+			return b.String()
+		}, 250, ""},
+		{"qualifiers of one feature", func(n int) string {
+			return fmt.Sprintf(head, 4) + "FEATURES             Location/Qualifiers\n     gene            1..4\n" + strings.Repeat("                     /note=\"x\"\n", n) + "ORIGIN      \n        1 acgt\n//\n"
+		}, 450, ""},
+		{"lines of a quoted qualifier value", func(n int) string {
+			return fmt.Sprintf(head, 4) + "FEATURES             Location/Qualifiers\n     gene            1..4\n                     /note=\"x\n" + strings.Repeat("                     more\n", n) + "                     end\"\nORIGIN      \n        1 acgt\n//\n"
+		}, 550, ""},
+		{"records of a stream", func(n int) string {
+			return strings.Repeat(fmt.Sprintf(head, 4)+"ORIGIN      \n        1 acgt\n//\n", n)
+		}, 150, ""},
+		{"FASTA lines", func(n int) string { return ">f\n" + strings.Repeat("acgtacgtacgtacgtacgt\n", n) }, 750, ""},
+		{"DBLINK lines", func(n int) string {
+			return fmt.Sprintf(head, 4) + "DBLINK      A: b\n" + strings.Repeat("            A: b\n", n) + "ORIGIN      \n        1 acgt\n//\n"
+		}, 900, ""},
+		{"unknown lines skipped as garbage", func(n int) string {
+			return fmt.Sprintf(head, 4) + strings.Repeat("  ??? unknown line\n", n) + "ORIGIN      \n        1 acgt\n//\n"
+		}, 800, ""},
+		{"parts of a join (location string)", func(n int) string { return parts("join(", ",", ")", n) }, 500, "location"},
+		{"parts of an order (location string)", func(n int) string { return parts("order(", ",", ")", n) }, 500, "location"},
+		{"nesting depth of complement (location string)", func(n int) string {
+			return strings.Repeat("complement(", n) + "1..5" + strings.Repeat(")", n)
+		}, 125, "location"},
+		{"parts of a join (locator string)", func(n int) string { return parts("join(", ",", ")", n) }, 500, "locator"},
+		{"parts of a join on the lines of one feature", func(n int) string {
+			var b strings.Builder
+			b.WriteString(fmt.Sprintf(head, 4) + "FEATURES             Location/Qualifiers\n     gene            join(")
+			for i := 0; i < n; i++ {
+				if i > 0 {
+					b.WriteString(",\n                     ")
+				}
+				fmt.Fprintf(&b, "%d..%d", 10*i+1, 10*i+5)
+			}
+			b.WriteString(")\n                     /note=\"x\"\nORIGIN      \n        1 acgt\n//\n")
+			return b.String()
+		}, 500, ""},
+		{"qualifier clauses of a selector", func(n int) string { return "gene" + strings.Repeat("/note=x", n) }, 125, "selector"},
+		{"features of a feature table", func(n int) string {
+			return strings.Repeat("gene            1..4\n                /note=\"x\"\n", n)
+		}, 250, "table"},
+	}
+	scanCPU := func(entry, text string) (float64, int) {
+		best := -1.0
+		recs := 0
+		for rep := 0; rep < 2; rep++ {
+			s.restoreRegistries()
+			t0 := c07CPU()
+			recs = 0
+			if entry == "" {
+				sc := seqio.NewAutoScanner(strings.NewReader(text))
+				for i := 0; i < len(text)+2 && sc.Scan(); i++ {
+					recs++
+				}
+			} else if s.call(entry, text) == nil {
+				recs = 1
+			}
+			if d := c07CPU() - t0; best < 0 || d < best {
+				best = d
+			}
+		}
+		return best, recs
+	}
+	mult := 4
+	if v, err := strconv.Atoi(os.Getenv("VH_C07_SCALE")); err == nil && v > 0 {
+		mult = v
+	}
+	for _, p := range probes {
+		if !c.NextShared() {
+			continue
+		}
+		p.n *= mult
+		small, large := p.build(p.n), p.build(8*p.n)
+		enc := fmt.Sprintf("scaling probe: %s at n=%d (%d bytes) and n=%d (%d bytes)", p.name, p.n, len(small), 8*p.n, len(large))
+		c.Begin(enc)
+		c.Count(enc, true)
+		c.Bucket("scaling-probe")
+		var t1, t4 float64
+		var r4 int
+		pn, val, site, stack := fw.Guard(func() {
+			t1, _ = scanCPU(p.entry, small)
+			t4, r4 = scanCPU(p.entry, large)
+		})
+		if pn {
+			c.ViolateX("scaling:"+panicClass(site, val), enc, "no panic", fmt.Sprint(val), stack, nil)
+			continue
+		}
+		c.Note(fmt.Sprintf("scaling %s: %.3f CPU-s at n, %.3f CPU-s at 8n (%d read)", p.name, t1, t4, r4))
+		if t4 > 0.25 && t4 > 24*math.Max(t1, 0.002) {
+			c.Violate("superlinear-time:"+strings.NewReplacer(" ", "-", "(", "", ")", "").Replace(p.name), enc, "CPU time within 24x when the input grows 8x (or under 0.25 CPU-s)", fmt.Sprintf("%.3f CPU-s -> %.3f CPU-s", t1, t4))
+		}
 	}
 }
 
@@ -1623,6 +1772,22 @@ func (s *c07State) extremes() {
 		}
 		return b.String()
 	}())
+	// CONTIG-only records (declared length, no ORIGIN) whose CONTIG line is damaged
+	// after the accession: they must not be read as empty sequences.
+	for _, eol := range []string{"\n", "\r\n"} {
+		for _, cl := range [][2]string{
+			{"intact (control)", "CONTIG      join(U00096.3:1..100)"},
+			{"closing parenthesis lost", "CONTIG      join(U00096.3:1..100"},
+			{"single dot", "CONTIG      join(U00096.3:1.100)"},
+			{"non-numeric start", "CONTIG      join(U00096.3:x..100)"},
+			{"end coordinate lost", "CONTIG      join(U00096.3:1..)"},
+			{"cut after the colon", "CONTIG      join(U00096.3:"},
+			{"join( lost", "CONTIG      U00096.3:1..100)"},
+		} {
+			rec := "LOCUS       CTG                      100 bp    DNA     linear   CON 01-JAN-2020" + eol + "DEFINITION  contig only." + eol + "ACCESSION   CTG" + eol + cl[1] + eol + "//" + eol
+			str("scan", "contig-only record, CONTIG line: "+cl[0]+" eol="+fmt.Sprintf("%q", eol), "contig-damaged", rec)
+		}
+	}
 	// streams
 	str("scan", "32768 empty FASTA records", "wide-list", strings.Repeat(">\n", c07MaxInput/2))
 	str("scan", "64 KiB of >", "wide-list", strings.Repeat(">", c07MaxInput))
